@@ -292,7 +292,11 @@ class ArrayUnionMatcher(CombinationMatcher):
     def max_quality(self):
         # A document can match several sub-matchers, and its score is the sum
         # of theirs
-        return sum(m.max_quality() for m in self._submatchers) * self._boost
+        # The scores of the current part are already in the array (and the
+        # sub-matchers have moved past them, possibly to their end)
+        rest = sum(m.max_quality() for m in self._submatchers
+                   if m.is_active()) * self._boost
+        return max(rest, max(self._a))
 
     def block_quality(self):
         return max(self._a)
